@@ -28,6 +28,7 @@ import (
 	"compress/gzip"
 	"os"
 	"path/filepath"
+	"strconv"
 	"strings"
 
 	"github.com/hashicorp/raft"
@@ -146,7 +147,9 @@ func vMetaIs(dir string, orig vOrig) bool {
 }
 
 // vOriginalOnDisk: the newest original snapshot can still be had from what is on disk - untouched
-// in the old v7 directory, or whole in the v8 directory, or as the snapshot of the new store.
+// in the old v7 directory, or whole in the v8 directory, or as the snapshot of the new store (in
+// place, or whole in the temporary directory it is built in). Without that no later start can
+// produce the result the property asks for; the assertion names the crash that lost the data.
 func vOriginalOnDisk(w vUp, withV7 bool, orig vOrig) bool {
 	if withV7 && vMetaIs(filepath.Join(w.old7, orig.id), orig) {
 		if b, err := os.ReadFile(filepath.Join(w.old7, orig.id, v7StateFile)); err == nil && bytes.Equal(b, orig.file) {
@@ -158,8 +161,12 @@ func vOriginalOnDisk(w vUp, withV7 bool, orig vOrig) bool {
 			return true
 		}
 	}
-	v := vObserve(w.new10)
-	return v.ok && v.index == orig.index && v.term == orig.term && v.content == orig.content
+	for _, d := range []string{w.new10, w.new10 + tmpSuffix} {
+		if v := vObserve(d); v.ok && v.index == orig.index && v.term == orig.term && v.content == orig.content {
+			return true
+		}
+	}
+	return false
 }
 
 // vStart is what a node start does with the snapshot directories (store/store.go, Store.Open).
@@ -223,6 +230,27 @@ var vPTSName string
 var vPTSShape int
 var vPTSEmpty, vPTSWithout bool
 
+// vPTSKey describes the state the first process of the scenario left behind (which crash, and the
+// names of everything below the root); the native sweep (sweep_test.go) compares it, and the number
+// of crash points of the start after it, with the symbolic run.
+var vPTSKey string
+var vPTSNoRestartCrash bool
+
+func vPTSDescribe(w vUp, at int) string {
+	b := func(x bool) string {
+		if x {
+			return "1"
+		}
+		return "0"
+	}
+	out := vPTSName + " shape=" + strconv.Itoa(vPTSShape) + " empty=" + b(vPTSEmpty) + " without=" + b(vPTSWithout) +
+		" at=" + strconv.Itoa(at) + " part=" + strconv.Itoa(vCr.part) + " tree="
+	for _, p := range vTreePost(w.root, false) {
+		out += p[len(w.root):] + ","
+	}
+	return out
+}
+
 // vUpgradeScenario: a node start dying at a chosen crash point (or not at all), then up to
 // len(modes)-1 further starts dying at chosen crash points, then one start that is left alone.
 // modes[i] says how the call in flight of the i-th process can be cut short (fsmodel.go). lean: a
@@ -247,13 +275,18 @@ func vUpgradeScenario(w vUp, withV7 bool, modes []int, lean bool, orig vOrig) {
 		verifAssert("C08-original-still-on-disk-after-crash", vOriginalOnDisk(w, withV7, orig))
 	}
 	part0 := vCr.part
+	vPTSKey = vPTSDescribe(w, at)
 	if lean && part0 > 0 {
 		restarts = 0
+	}
+	vPTSNoRestartCrash = restarts == 0
+	if restarts == 0 && verifSymbolic() {
+		println("PTS", vPTSKey, "restart-points=none")
 	}
 	for i := 0; i < restarts; i++ {
 		n2 := vCountPoints(func() { vStart(w, withV7) })
 		if i == 0 && verifSymbolic() {
-			println("PTS", vPTSName, vPTSShape, vPTSEmpty, vPTSWithout, at, part0, n2) // compared with the native sweep (sweep_test.go)
+			println("PTS", vPTSKey, "restart-points="+strconv.Itoa(n2))
 		}
 		k := verifChoice(verifName("crashInRestart", i), n2+1) // 0: this start is not interrupted
 		if k == 0 {
